@@ -6,6 +6,7 @@ Case lines (shared with harness/c05/c05.c):
   src <path> <hex>                 LPC source written below the scratch mudlib (ignored by the model)
   load <oid> <path> | clone <oid> <path>      objects; the model only needs their names
   user <oid>                       make the object interactive (ignored by the model)
+  maxdepth <n>                     MaxCallDepth of this case
   setcg <oid|0>                    command_giver at driver level
   # ops <s-expressions>            abstract op list of the LPC function evaluated by the next inject/run
   inject <oid> <fn> [co|po <oid>]  fault at every instruction k of <oid>-><fn>()
@@ -13,7 +14,7 @@ Case lines (shared with harness/c05/c05.c):
   run <oid> <fn>                   one evaluation without fault (side effects stay)
   input <oid> <text>               next input line of an interactive (pending input_to)
 op syntax:  (say t) (tmp n ops) (handler id ops) (setreg co|po|cg oid) (withcg oid ops) (install site ok|bad)
-  (call local|other|fplocal|functional|efunp oid nargs declared ops) (catch ops) (saycatch) (safe nargs declared ops)
+  (call local|other|fplocal|functional|efunp oid nargs declared ops) (cb … same, a callback made by an efun: no tick) (catch ops) (saycatch) (safe nargs declared ops)
   (raise t) (throw t) (limit) (load ops) (dhook oid ops)
 -/
 import NV.Common.Proto
@@ -104,6 +105,14 @@ def parseOp (n : Names) : Nat → List String → Option (Op × List String)
       match k?, a.toNat?, d.toNat? with
       | some k, some a, some d => body rest (.call k a d)
       | _, _, _ => none
+    | "cb" :: kind :: o :: a :: d :: rest =>
+      let k? : Option CallKind :=
+        if kind == "local" then some .local_ else if kind == "other" then some (.other (n.valOf o))
+        else if kind == "fplocal" then some (.fpLocal (n.valOf o)) else if kind == "functional" then some (.functional (n.valOf o))
+        else if kind == "efunp" then some (.efunp (n.valOf o)) else none
+      match k?, a.toNat?, d.toNat? with
+      | some k, some a, some d => body rest (.cb k a d)
+      | _, _, _ => none
     | "catch" :: rest => body rest .catch_
     | "saycatch" :: rest => some (.sayCatch, rest)
     | "safe" :: a :: d :: rest =>
@@ -184,6 +193,10 @@ def stepLine (s : DState) (line : String) : DState :=
   | "src" :: _ => s
   | "user" :: _ => s
   | "maxk" :: _ => s
+  | ["maxdepth", v] =>
+    match v.toNat? with
+    | some d => if d ≥ 4 ∧ d ≤ 50 then { s with m := { s.m with maxDepth := d } } else s
+    | none => { s with bad := line :: s.bad }
   | ["load", oid, _] => { s with names := { objs := s.names.objs ++ [oid] } }
   | ["clone", oid, _] => { s with names := { objs := s.names.objs ++ [oid] } }
   | "vapply" :: _ => s
